@@ -231,7 +231,10 @@ class Exec(Engine):
                 return self.quantified(f.id, node.args[0], st, node)
             if f.id == 'sum' and len(node.args) == 1 and isinstance(node.args[0], (ast.GeneratorExp, ast.ListComp)) \
                     and st.lookup('sum') is None:
-                return self.sum_comprehension(node.args[0], st, node)
+                try:
+                    return self.sum_comprehension(node.args[0], st, node)
+                except Undecided:
+                    pass        # the general route: the comprehension as a sequence, then sum() of a sequence of ints
             if f.id == 'implies' and self.pure:
                 a = self.truthy(self.ev1(node.args[0], st), st)
                 if a.lit is not None and not a.lit[1]:
@@ -486,6 +489,8 @@ class Exec(Engine):
         dom = None
         if self.pure:
             split = self.snoc_split(kind, gen, comp, st, node)
+            if split is None:
+                split = self.snoc_split_range(kind, gen, comp, st, node)
             if split is not None:
                 return split
             dom = self.symbolic_domain(comp, st)
@@ -580,6 +585,48 @@ class Exec(Engine):
             s.bind(name, wrap(last, elem))
             ts.append(self.truthy(self.ev1(gen.elt, s), s))
         return [(VBool(And(*ts) if kind == 'all' else Or(*ts)), st)]
+
+    def snoc_split_range(self, kind, gen, comp, st, node):
+        """all/any(P(k) for k in range(len(xs))) where the list object xs is known to be ys ++ [y]:
+        (the same quantifier with xs replaced by ys) combined with P(len(ys)) on xs itself."""
+        it = comp.iter
+        if not (isinstance(comp.target, ast.Name) and not comp.ifs and isinstance(it, ast.Call) and isinstance(it.func, ast.Name)
+                and it.func.id == 'range' and len(it.args) in (1, 2)):
+            return None
+        if len(it.args) == 2 and not (isinstance(it.args[0], ast.Constant) and it.args[0].value == 0):
+            return None
+        hi = it.args[-1]
+        if not (isinstance(hi, ast.Call) and isinstance(hi.func, ast.Name) and hi.func.id == 'len' and len(hi.args) == 1):
+            return None
+        try:
+            v = self.ev1(hi.args[0], st)
+        except Undecided:
+            return None
+        if not (isinstance(v, VRef) and isinstance(st.heap.get(v.loc), HList)):
+            return None
+        o = st.heap[v.loc]
+        snoc = self.ctx.__dict__.get('snoc', {})
+        if o.seq.s not in snoc:
+            return None
+        pre, last = snoc[o.seq.s]
+        name = comp.target.id
+        # prefix: the list object holds ys
+        s1 = st.copy()
+        s1.heap[v.loc] = HList(pre, o.elem)
+        pre_gen = ast.copy_location(ast.GeneratorExp(elt=gen.elt, generators=gen.generators), gen)
+        rs = self.quantified(kind, pre_gen, s1, node)
+        if len(rs) != 1:
+            return None
+        t_pre = self.truthy(rs[0][0], s1)
+        # the new last index on the list as it is
+        s2 = st.copy()
+        fid = s2.new_frame(s2.cur)
+        s2.cur = fid
+        s2.bind(name, VInt(Len(pre)))
+        s2.assume(Eq(smt.At(o.seq, Len(pre)), last))
+        t_last = self.truthy(self.ev1(gen.elt, s2), s2)
+        t_last = Implies(Eq(smt.At(o.seq, Len(pre)), last), t_last)
+        return [(VBool(And(t_pre, t_last) if kind == 'all' else Or(t_pre, t_last)), st)]
 
     def symbolic_domain(self, comp, st):
         """(bound var, guard, binder) for `for x in range(a, b)` / `for x in seq` in pure mode."""
